@@ -126,8 +126,16 @@ impl<F: Field> MulAddFusion<F> {
                     c: None,
                     ..
                 } => {
+                    // A backwards mul (its `out` already has a definer) keeps its own row: it asserts
+                    // `a * b == out` for a value defined elsewhere, so it is never a fusion candidate.
+                    let backwards = self.is_backwards(idx, out);
                     self.track_backwards_op(idx, *out, *b);
-                    self.insert_def(*out, idx, OpDef::Mul { a: *a, b: *b });
+                    let def = if backwards {
+                        OpDef::Other
+                    } else {
+                        OpDef::Mul { a: *a, b: *b }
+                    };
+                    self.insert_def(*out, idx, def);
                 }
                 Op::Alu {
                     kind: AluOpKind::Add,
